@@ -57,7 +57,8 @@ def enumerate_cases(tier):
             "mol": _values("mol", mo),
             "wind_speed": _values("wind_speed", ws),
             "wind_dir": _values("wind_dir", wd),
-            "timestamps": None if ts < 0 else [f"2024-01-01T{h:02d}:00" for h in range(ts)],
+            # labels deliberately NOT in ascending order: step i must keep the i-th label whatever it says
+            "timestamps": None if ts < 0 else [f"2024-01-01T{(7 * h + 13) % 24:02d}:00" for h in range(ts)],
             "drive": True,
             "origin": bool((us + mo + ws + wd + ts) % 2),  # with / without a geographic reference origin
         }
